@@ -260,6 +260,9 @@ func c19Conc(x *explore.Ctx, mix string, n int) {
 		})
 	}
 	s.Run()
+	for _, t := range s.Trace {
+		x.Logf("schedule: %s", t)
+	}
 	x.NonTrivial()
 	x.Obs("errs=%v switches=%d", errs, s.Switches)
 	x.Check(s.Deadlock == "", "C19:concurrent-deadlock", "%s", s.Deadlock)
